@@ -143,6 +143,69 @@ func retention(c *evid.Ctx) {
 	}
 }
 
+// ---- suppression cache across its growth steps ---------------------------------------------------------------
+
+// suppression: n distinct ids are logged at one instant, then the last, the first and the middle id are
+// repeated at once (inside the interval: none may be written) and again after the interval (each must be
+// written) - for every n up to 160, which takes the cache of last-logged times across its growth steps
+// at 76 and 153 entries (a seeded change lost exactly the id that made the table grow).
+func suppression(c *evid.Ctx) {
+	vrt.Policy = vrt.PolicySuppressed
+	defer func() { vrt.Policy = vrt.PolicyReal }()
+	for n := 1; n <= 160; n++ {
+		c.Count("suppression_cases", 1)
+		c.Count("evaluations", 1)
+		mem := vos.NewMemFS()
+		vos.Use(mem)
+		now := time.Date(2024, 3, 10, 12, 0, 0, 0, time.UTC)
+		vtime.SetVirtual(now)
+		mem.MkdirAll(logsDir)
+		fl := newLogger(logger.LOG_LEVEL_WARN)
+		fl.VerifSet(10, 7, true)
+		id := func(i int) string { return fmt.Sprintf("WS%05d", i) }
+		for i := 1; i <= n; i++ {
+			fl.Println(id(i), fmt.Sprintf("first-%d-payload", i))
+		}
+		probes := []int{n, 1, (n + 1) / 2}
+		for _, p := range probes {
+			fl.Println(id(p), fmt.Sprintf("repeat-%d-payload", p))
+		}
+		vtime.Advance(10 * time.Second)
+		for _, p := range probes {
+			fl.Println(id(p), fmt.Sprintf("later-%d-payload", p))
+			vtime.Advance(10 * time.Second) // probes may name the same id
+		}
+		var all strings.Builder
+		for _, nm := range mem.List(logsDir) {
+			data, _ := mem.ReadFile(logsDir + "/" + nm)
+			all.Write(data)
+		}
+		text := all.String()
+		verdict := ""
+		for i := 1; i <= n && verdict == ""; i++ {
+			if k := strings.Count(text, fmt.Sprintf("first-%d-payload", i)); k != 1 {
+				verdict = fmt.Sprintf("lost-or-duplicate-line: the first line of id %s appears %d times", id(i), k)
+			}
+		}
+		for _, p := range probes {
+			if verdict != "" {
+				break
+			}
+			if strings.Contains(text, fmt.Sprintf("repeat-%d-payload", p)) {
+				verdict = fmt.Sprintf("rate-limit: id %s (number %d of %d distinct ids logged at one instant, interval 10 s) was repeated at once and written again", id(p), p, n)
+			} else if !strings.Contains(text, fmt.Sprintf("later-%d-payload", p)) {
+				verdict = fmt.Sprintf("lost-line: id %s repeated after the interval was not written", id(p))
+			}
+		}
+		if verdict != "" {
+			kind := strings.SplitN(verdict, ":", 2)[0]
+			c.Violation("C17:suppression:"+kind, fmt.Sprintf("%d distinct ids: %s", n, verdict), map[string]interface{}{"engine": "E2", "distinct_ids": n})
+		}
+		vos.Use(nil)
+		vtime.ClearVirtual()
+	}
+}
+
 func classOf(f fileSpec) string {
 	switch {
 	case f.dir:
@@ -517,6 +580,7 @@ func Run(c *evid.Ctx) {
 	}
 	retention(c)
 	readWindow(c)
+	suppression(c)
 	shard.Spawn(c, 16, true)
 	c.Cov["traces_validated_against_impl"] = c.Counter("states")
 	c.Count("distinct_nontrivial", c.Counter("evaluations"))
